@@ -1,11 +1,18 @@
 #!/bin/bash
 # usage: try_seed.sh <property id> <diff> [tier]
-# Applies a seeded change to /repo, runs the property's check, and restores /repo.
+# Runs the property's check against a seeded change WITHOUT touching /repo: the change is applied
+# to a scratch worktree of /repo's HEAD (SYMGO_REPO), evidence and replays go to a scratch
+# directory (SYMGO_OUT). Equivalent to `git -C /repo apply <diff>; bin/check <id>; git -C /repo
+# checkout -- .`, but safe to use while other checks are reading /repo.
 ID=$1; DIFF=$(realpath "$2"); TIER=${3:-quick}
-cd /repo || exit 2
-[ -z "$(git status --porcelain)" ] || { echo "/repo not clean"; exit 2; }
-git apply "$DIFF" || { echo "diff does not apply"; exit 2; }
-cd /verif && bin/check $ID --tier $TIER 2>&1 | grep -v "^  cover" | grep "VIOLATION\|KNOWN\|OK property\|INCONCLUSIVE\|UNCONFIRMED\|  harness="
+WT=${SYMGO_TRY_DIR:-/tmp/symgo-try}
+OUT=$WT.out
+head=$(git -C /repo rev-parse HEAD)
+if [ ! -d "$WT" ]; then git -C /repo worktree add --detach "$WT" "$head" >/dev/null 2>&1 || { echo "cannot create $WT"; exit 2; }; fi
+git -C "$WT" checkout -q --detach "$head" 2>/dev/null; git -C "$WT" reset -q --hard "$head"; git -C "$WT" clean -fdq
+git -C "$WT" apply "$DIFF" || { echo "diff does not apply"; exit 2; }
+mkdir -p "$OUT"
+cd /verif && SYMGO_REPO="$WT" SYMGO_OUT="$OUT" bin/check $ID --tier $TIER 2>&1 | grep -v "^  cover" | grep "VIOLATION\|KNOWN\|OK property\|INCONCLUSIVE\|UNCONFIRMED\|  harness="
 rc=${PIPESTATUS[0]}
-cd /repo && git checkout -q -- . && git status --porcelain
+git -C "$WT" reset -q --hard "$head"; git -C "$WT" clean -fdq
 echo "check exit=$rc"
